@@ -9,7 +9,8 @@ Sections
              sample_means_and_95CIs (the reported credible intervals).
   wvar     : weighted_var (1-D and 2-D x) against the exact-rational reliability-weights formula and against
              numpy.cov(aweights=w, ddof=1); rescaling of the weights.
-  ess      : compute_ess against (sum w)^2 / sum w^2 in exact rationals; rescaling.
+  ess      : compute_ess against (sum w)^2 / sum w^2 and normalize_weights against w / sum w, both in exact
+             rationals; rescaling.
   gm-pdf   : GMDistribution.pdf / logpdf for dims 1..3 x 1..3 components x covariance forms x weight vectors
              (incl. zeros, unnormalised, None) x argument shapes against a written-out normal density.
   gm-rvs   : (mode E, vmc/explore.py) the constraint of GMDistribution.rvs is the environment: the scripted
@@ -287,6 +288,7 @@ def run_wvar(case):
 def run_ess(case):
     """compute_ess for every weight vector of length n (or the listed ones) x scales."""
     ess = _U().compute_ess
+    norm = _U().normalize_weights
     n = case['n']
     evals = 0
     outs = []
@@ -310,6 +312,17 @@ def run_ess(case):
                     return _viol('C13:ess:outside-1..n', {'got': float(v), 'nonzero': nz}, wit, evals, evals)
                 if sc == '1':
                     outs.append(float(v))
+                # normalize_weights: proportional to w, sums to one
+                good, nw = _try(norm, wa)
+                evals += 1
+                if not good:
+                    return _viol(nw[0].replace('C13:exception', 'C13:normalize_weights:exception'), {'error': nw[1]},
+                                 wit, evals, evals)
+                nw = np.asarray(nw, dtype=float)
+                tot = sum(w)
+                if nw.shape != (n,) or not all(_close(g, Fraction(t, tot)) for g, t in zip(nw, w)):
+                    return _viol('C13:normalize_weights:not-w-over-sum', {'got': nw.tolist(), 'w': list(w)}, wit,
+                                 evals, evals)
     r = ok(outcome=digest((n, outs)), ess_calls=evals)
     r.update(evals=evals, distinct=evals)
     return r
